@@ -25,12 +25,15 @@ import snaxrun
 from framework import Prop
 
 T = "memref<16xi32>"
-FIXED_MODEL = os.environ.get("C13_MODEL", "fixed") != "orig"   # "orig" = model of the tree without F17
+# which tree the model mirrors: "all" = with F17 + FC13a (common loop) + FC13b (views) [default, what the committed files
+# expect], "f17" = F17 only, "orig" = the pinned commit
+MODEL_FIX = {"fixed": "all"}.get(os.environ.get("C13_MODEL", "all"), os.environ.get("C13_MODEL", "all"))
 
 # ------------------------------------------------------------------------------------------------------------
 # abstract programs
 #   stmt := ["copy", s, d] | ["gen", a, b, c] | ["dart", acc, a, b, c] | ["use", [bufs]] | ["sync"]
-#         | ["alloc", name] | ["dealloc", b] | ["sv", name, base] | ["if", then, else|None, ci] | ["for", body, ui]
+#         | ["call", b] (func.call @ext, all cores, reads+writes b) | ["clear"] (snax.clear_l1)
+#         | ["alloc", name] | ["dealloc", b] | ["sv", name, base(, "cast")] | ["if", then, else|None, ci] | ["for", body, ui]
 #           ui = 0|1: dynamic bounds (%lb to %ub<ui> step %st); ui = [lb, ub, step]: three arith.constant index ops
 #           in front of the loop (constant trip count = ceil((ub-lb)/step), 0 if empty)
 #   buffers are named by strings: "b0".. (function arguments), "m0".. (allocs), "v0".. (subviews)
@@ -42,6 +45,8 @@ def render(case):
     out = []
     nb = case["nbuf"]
     args = ", ".join(f"%b{i} : {T}" for i in range(nb))
+    if any(x[0] == "call" for x in walk_stmts(case["body"])):
+        out.append(f"func.func private @ext({T}) -> ()")
     out.append(f"func.func @f({args}, %c0 : i1, %c1 : i1, %lb : index, %ub0 : index, %ub1 : index, %st : index) {{")
     cnt = [0]
 
@@ -70,6 +75,10 @@ def render(case):
                 out.append(gen(s[1], s[2], s[3], ind))
             elif k == "dart":
                 out.append(dart(s[1], s[2], s[3], s[4], ind))
+            elif k == "call":
+                out.append(f'{ind}func.call @ext(%{s[1]}) : ({T}) -> ()')
+            elif k == "clear":
+                out.append(f'{ind}"snax.clear_l1"() : () -> ()')
             elif k == "use":
                 out.append(f'{ind}"test.op"({", ".join("%" + b for b in s[1])}) : ({", ".join(T for _ in s[1])}) -> ()')
             elif k == "sync":
@@ -78,6 +87,10 @@ def render(case):
                 out.append(f'{ind}%{s[1]} = memref.alloc() : {T}')
             elif k == "dealloc":
                 out.append(f'{ind}memref.dealloc %{s[1]} : {T}')
+            elif k == "sv" and len(s) > 3 and s[3] == "ucast":
+                out.append(f'{ind}%{s[1]} = builtin.unrealized_conversion_cast %{s[2]} : {T} to {T}')
+            elif k == "sv" and len(s) > 3 and s[3] == "cast":
+                out.append(f'{ind}%{s[1]} = "memref.cast"(%{s[2]}) : ({T}) -> {T}')
             elif k == "sv":
                 out.append(f'{ind}%{s[1]} = "memref.subview"(%{s[2]}) <{{static_offsets = array<i64: 0>, static_sizes = array<i64: 16>, '
                            f'static_strides = array<i64: 1>, operandSegmentSizes = array<i32: 1, 0, 0, 0>}}> : ({T}) -> {T}')
@@ -108,7 +121,12 @@ def render(case):
 
 
 def abstract_block(case):
-    """Block form (model JSON) derived from the abstract program alone."""
+    return abstract_prog(case)[0]
+
+
+def abstract_prog(case):
+    """Block form (model JSON) derived from the abstract program alone, and the (view result, source) value pairs."""
+    views = []
     nb = case["nbuf"]
     val = {f"b{i}": i for i in range(nb)}
     val.update({"c0": nb, "c1": nb + 1, "lb": nb + 2, "ub0": nb + 3, "ub1": nb + 4, "st": nb + 5})
@@ -139,6 +157,10 @@ def abstract_block(case):
                 res.append(leaf("cp", [V(s[1]), V(s[2]), V(s[3])], [R(s[1]), R(s[2])], [R(s[3])]))
             elif k == "dart":
                 res.append(leaf(DART_CLS[s[1]], [V(s[2]), V(s[3]), V(s[4])], [R(s[2]), R(s[3])], [R(s[4])]))
+            elif k == "call":   # an external function: executed by every core, may read and write its argument
+                res.append(leaf("all", [V(s[1])], [R(s[1])], [R(s[1])]))
+            elif k == "clear":  # snax.clear_l1
+                res.append(leaf("all", []))
             elif k == "use":
                 res.append(leaf("all", [V(b) for b in s[1]], [R(b) for b in s[1]], []))
             elif k == "sync":
@@ -155,6 +177,7 @@ def abstract_block(case):
                 i = fresh_id()
                 val[s[1]] = nxt[0]
                 root[s[1]] = root[s[2]]
+                views.append([val[s[1]], V(s[2])])
                 nxt[0] += 1
                 res.append(["leaf", i, "all", sorted({val[s[1]], V(s[2])}), [], [], False])
             elif k == "if":
@@ -180,7 +203,7 @@ def abstract_block(case):
 
     body = block(case["body"])
     body.append(leaf("all", []))  # func.return
-    return body
+    return body, views
 
 
 # ------------------------------------------------------------------------------------------------------------
@@ -198,6 +221,7 @@ class Conv:
         self.func = func_op
         self.val = {}
         self.opid = {}
+        self.clears = None
         for a in func_op.body.block.args:
             self.val[a] = len(self.val)
         self._number(func_op.body.block)
@@ -219,8 +243,9 @@ class Conv:
     def root(self, v):
         from xdsl.dialects import memref
         from xdsl.ir import OpResult
-        while isinstance(v, OpResult) and isinstance(v.op, memref.SubviewOp):
-            v = v.op.source
+        from xdsl.dialects.builtin import UnrealizedConversionCastOp
+        while isinstance(v, OpResult) and isinstance(v.op, (memref.SubviewOp, memref.CastOp, UnrealizedConversionCastOp)):
+            v = v.op.operands[0]
         return v
 
     def cls(self, op):
@@ -245,6 +270,9 @@ class Conv:
             return [], [self.root(op.memref)]
         if op.name == "test.op":
             return [self.root(v) for v in op.operands if isinstance(v.type, MemRefType)], []
+        if op.name == "func.call" and op.callee.string_value() == "ext":
+            bufs = [self.root(v) for v in op.operands if isinstance(v.type, MemRefType)]
+            return bufs, list(bufs)
         return [], []
 
     def leaf(self, op):
@@ -253,11 +281,24 @@ class Conv:
         return ["leaf", self.opid[op], self.cls(op), sorted({self.val[v] for v in [*op.operands, *op.results]}),
                 sorted({self.val[v] for v in r}), sorted({self.val[v] for v in w}), isinstance(op, memref.DeallocOp)]
 
+    def top(self, f):
+        """Block form of the function body. `snax.clear_l1` is replaced 1:1 by a call of @snax_clear_l1 in snax-to-func:
+        the n-th such call stands for the n-th clear_l1 (pre-order)."""
+        if self.clears is None:
+            self.clears = [self.leaf(op) for op in f.walk() if op.name == "snax.clear_l1"]
+        self._clear_it = iter(self.clears)
+        return self.block(f.body.block)
+
     def block(self, block):
         res = []
         for op in block.ops:
             if is_barrier(op):
                 res.append(["sync"])
+            elif op.name == "func.call" and op.callee.string_value() == "snax_clear_l1":
+                nxt = next(self._clear_it, None)
+                if nxt is None:
+                    raise ValueError("more calls of @snax_clear_l1 than snax.clear_l1 operations")
+                res.append(nxt)
             elif isinstance(op, self.scf.IfOp):
                 t = self.block(op.true_region.block)
                 e = self.block(op.false_region.block) if op.false_region.blocks else []
@@ -311,19 +352,19 @@ def run_real(case, dispatch_cores=None):
         return None, None, {"invalid_input": type(e).__name__}
     f = find_func(mod)
     conv = Conv(f, ctx)
-    inp = conv.block(f.body.block)
+    inp = conv.top(f)
     InsertSyncBarrier().apply(ctx, mod)
     mod.verify()
     if dispatch_cores is not None:
-        out_before = conv.block(f.body.block)
+        out_before = conv.top(f)
         struct = Structure(conv, f)
         from snaxc.transforms.dispatch_regions import DispatchRegions
         DispatchRegions(nb_cores=dispatch_cores).apply(ctx, mod)
         mod.verify()
         return mod, conv, {"in": inp, "out": out_before, "struct": struct, "ctx": ctx}
-    out = conv.block(f.body.block)
+    out = conv.top(f)
     lower(ctx, mod)
-    return mod, conv, {"in": inp, "out": out, "low": conv.block(f.body.block)}
+    return mod, conv, {"in": inp, "out": out, "low": conv.top(f)}
 
 
 class Structure:
@@ -495,12 +536,12 @@ def check_trace(conv, struct, ev, nb_cores):
 
 def classify(conv, struct, op1, cores1, stamp1, op2, cores2, stamp2, allc):
     """Which known defect explains an unsynchronised pair (None = not explained: a new violation)."""
+    if cores1 == allc:
+        return "D30"       # the dependency starts at an all-cores operation
     v1 = {*op1.operands, *op1.results}
     v2 = {*op2.operands, *op2.results}
     if not (v1 & v2):
-        return "D6"        # the buffer is shared through a view: the two operations share no SSA value
-    if cores1 == allc:
-        return "D30"       # the dependency starts at an all-cores operation
+        return "D6"        # the buffer is shared through a view: the two operations share no SSA value (fixed by FC13b)
     # loop-carried: the second event belongs to a later iteration of a loop that contains both
     common = 0
     while common < len(stamp1) and common < len(stamp2) and stamp1[common] == stamp2[common]:
@@ -545,8 +586,12 @@ class Gen:
         k = r.random()
         if k < self.p_all:
             j = r.random()
-            if j < 0.5:
+            if j < 0.42:
                 return ["use", [self.pick() for _ in range(r.randint(1, 2))]]
+            if j < 0.47:
+                return ["call", self.pick()]
+            if j < 0.5:
+                return ["clear"]
             if j < 0.7 and depth == 0:
                 self.nm += 1
                 n = f"m{self.nm}"
@@ -564,7 +609,7 @@ class Gen:
             n = f"v{self.nm}"
             base = self.pick()
             self.bufs.append(n)
-            return ["sv", n, base]
+            return ["sv", n, base] + r.choice([[], [], ["cast"], ["ucast"]])
         k = r.random()
         if k < 0.45:
             s, d = self.pick(), self.pick()
@@ -610,7 +655,7 @@ def walk_stmts(stmts):
 def gen_case(rng):
     flavour = rng.random()
     p_all = 0.0 if flavour < 0.55 else rng.choice([0.1, 0.25])
-    p_alias = 0.0 if flavour < 0.8 else 0.15
+    p_alias = 0.0 if flavour < 0.65 else rng.choice([0.1, 0.2])
     g = Gen(rng, rng.randint(2, 4), rng.choice([0, 1, 2, 2, 3]), p_all, p_alias, rng.choice([0.0, 0.08, 0.2]), rng.random() < 0.5)
     body = g.block(0, rng.randint(2, 8))
     return {"kind": "prog", "nbuf": g.nbuf, "body": body}
@@ -631,8 +676,14 @@ def gen_kernel(r):
         local_out = r.random() < 0.5
         out = m2 if local_out else r.choice(b)
         st = [["alloc", m1]] + ([["alloc", m2]] if local_out else [])
+        src = m1
+        if r.random() < 0.3:  # the compute op sees the local buffer through a view (possibly a view of a view)
+            for k in range(r.randint(1, 2)):
+                v = f"v{3 * cnt[0] + k}"
+                st.append(["sv", v, src] + r.choice([[], [], ["cast"], ["ucast"]]))
+                src = v
         st.append(["copy", r.choice(b), m1])
-        comp = ["dart", "snax_alu", m1, m1, out] if r.random() < 0.2 else ["gen", m1, r.choice([m1] + b), out]
+        comp = ["dart", "snax_alu", src, src, out] if r.random() < 0.2 else ["gen", src, r.choice([m1, src] + b), out]
         st.append(comp)
         free1 = r.random() < 0.75
         where = r.choice(["between", "after"])
@@ -738,12 +789,15 @@ class C13(Prop):
         return {"out": out["out"], "in_real": out["in"], "low": out["low"]}
 
     def requests(self, case):
-        return [{"fn": "c13.insert", "args": {"body": abstract_block(case), "fixed": FIXED_MODEL}}]
+        body, views = abstract_prog(case)
+        return [{"fn": "c13.insert", "args": {"body": body, "fix": MODEL_FIX, "views": views if MODEL_FIX == "all" else []}}]
 
     def model(self, case, answers):
         a = answers[0]
         if "err" in a:
             return {"model_error": a["err"]}
+        if MODEL_FIX == "all" and not a["ok"]["rootVisible"]:
+            return {"model_error": "generated program is outside the theorems' clause RootVisible"}
         if not a["ok"]["nodup"] or not a["ok"]["compoundAll"]:
             return {"model_error": "the block form violates the theorems' well-formedness predicate"}
         return {"out": a["ok"]["out"], "in_real": abstract_block(case), "low": a["ok"]["low"]}
